@@ -293,8 +293,6 @@ Section Tool.
     destruct (field_value_cases _ _ _ _ Hfv) as [[Er [Ey _]]|[Er Hsv]]; [left; subst y; rewrite Er; reflexivity|].
     unfold shape_value in Hsv. destruct (f_shape (fld c i)) as [| |kk]; try discriminate.
     unfold dict_value in Hsv. destruct (jget a v) as [| | | |s|l|members]; try discriminate.
-    - destruct s; [|discriminate]. inversion Hsv. right. split; [reflexivity|left; reflexivity].
-    - destruct l; [|discriminate]. inversion Hsv. right. split; [reflexivity|right; reflexivity].
     - left. destruct (mapM (dict_member (PK f') kk (f_kind (fld c i))) members) as [l'|] eqn:E; [|discriminate].
       cbn [bind] in Hsv. inversion Hsv. subst y. apply mapM_Forall2 in E.
       destruct (parse_nn G classify pre post f') as [NNk _].
